@@ -446,6 +446,11 @@ func c05Oracle(r *core.Result, fr *faultRun, f faultSpec) {
 			r.Fail("accepted:"+sigBase, "%d honest recipient(s) of the altered %s finished with a result", recipientsEnded, f.Type)
 		}
 	}
+	// a participant that replays everything another participant sends (commitment, opening and identity-bound proof
+	// together) must be noticed by the parties that check the proofs
+	if f.How == "replay-all" && errCount == 0 {
+		r.Fail("unnoticed:replay-all:"+s.Proto, "%s replayed every message of another participant as its own and no honest party reported an error", D.Name)
+	}
 	// (d) resharing: a single deviating participant cannot make the honest ones lose the key
 	if sim.IsResharing(s.Proto) && fr.in != nil {
 		erased := 0
